@@ -1,4 +1,4 @@
-\* C15 probe: WITHOUT the known-defect escape the key-coercion scenario must be reachable (expected: violated)
+\* C15 probe (pinned original, FixKeys = FALSE): WITHOUT the known-defect escape the key-coercion scenario must be reachable (expected: violated)
 SPECIFICATION Spec
 CONSTANTS
   D = 1
@@ -8,4 +8,5 @@ CONSTANTS
   MaxK = 1
   MaxB = 0
   ErrKinds = {"full"}
+  FixKeys = FALSE
 INVARIANT InvRoundTripNoEscape
